@@ -31,6 +31,18 @@ def run_check(prop: str, thorough: bool, root=None, overlay=None, quiet=False, w
         A = Analysis(root, overlay)
         mod.run(A, R, thorough)
         R.extra.setdefault('units_analysed', A.units())
+        if thorough and write:
+            # checker validation on in-memory variants of the current tree; reported, never decides the exit code
+            from .selftest import run_all
+            from .sweeps import sweep
+            R.extra['package_sweep'] = sweep(A, prop)
+            v = run_all([prop], root=A.root, verbose=False)
+            from .selftest import run_seeded
+            sd = run_seeded([prop], root=A.root, verbose=False)
+            R.validation = {'seeded_breaks': v['mutants'], 'reported': v['killed'], 'missed': v['missed'], 'benign_variants': v['benign'], 'silent': v['silent'],
+                            'false_alarms': v['false_alarms'], 'operators_no_longer_applicable': v['not_applicable'], 'errors': v['errors'], 'wall_s': v['wall_s'],
+                            'independent_seeded_changes': sd,
+                            'note': 'each variant is an in-memory edit of the current /repo sources analysed by the same check; results are evidence about the checker, not about the property'}
         if not write:
             return _dry_finish(R), R
         return R.finish(), R
